@@ -139,31 +139,49 @@ def _case(n, k0, k1, k2, k3, mode):
         reply_for = {}
         for qi, ap in enumerate(asked):
             reply_for.setdefault(ap, []).append(stdin[qi] if qi < len(stdin) else None)
+        expect = []  # per position: (expected outcome, expected failure)
         for pos, (kind, a, p) in enumerate(zip(kinds, args, paths)):
-            dup = AK[kind] == 'duplicate-of-first' and pos > 0
-            my_stdin = []
+            k = AK[kind]
+            if k == 'duplicate-of-first':
+                k = AK[kinds[0]] if pos > 0 else 'nonexistent'
+                if k == 'duplicate-of-first':
+                    k = 'nonexistent'
+                if pos > 0 and expect[0][0] == 'trashed':
+                    k = 'gone-by-then'
+            reply = None
             if interactive and reply_for.get(a):
-                rp = reply_for[a].pop(0)
-                my_stdin = [] if rp is None else [rp]
-            if dup:
-                # the second occurrence must simply fail as nonexistent (or be ignored under -f)
-                expect_fail = '-f' not in opts and classify(before, after, paths[0]) == 'trashed'
-                if classify(before, after, paths[0]) != 'trashed':
-                    expect_fail = None
-                out_alone, fail_alone = None, expect_fail
+                reply = reply_for[a].pop(0)
+            declined = interactive and reply is not None and not reply[:1] in ('y', 'Y')
+            if k in ('file', 'dir', 'link'):
+                if interactive and reply is None:
+                    return rt.fail('C16:not-asked-under-i:%s' % k, 'argument %r of %r was not asked about; stdout %r' % (a, args, r['out'][-300:]))
+                expect.append(('untouched', False) if declined else ('trashed', False))
+            elif k in ('nonexistent', 'empty-string', 'gone-by-then'):
+                expect.append((None, '-f' not in opts))
+            elif k in ('dot', 'dotdot-slash'):
+                expect.append((None, True))
+            elif k in ('non-utf8', 'untrashable'):
+                expect.append(('untouched', not declined))
             else:
+                raise ValueError(k)
+        any_failed = False
+        for pos, (kind, a, p) in enumerate(zip(kinds, args, paths)):
+            want_out, want_fail = expect[pos]
+            got = classify(before, after, p)
+            first_of_dup = AK[kind] == 'duplicate-of-first' and pos > 0
+            if want_out is not None and not first_of_dup and got != want_out:
+                return rt.fail('C16:outcome:%s' % AK[kind], 'argument %d (%r, %s) of %r under %r: %s, expected %s; stderr %r' % (
+                    pos, a, AK[kind], args, opts, got, want_out, r['err'][-300:]))
+            if AK[kind] in ('file', 'dir', 'link', 'non-utf8', 'untrashable', 'nonexistent') :
+                my_stdin = []
+                if interactive and want_out is not None:
+                    my_stdin = ['n'] if (want_out == 'untouched' and not want_fail) else ['y']
                 ma, ra = scen.run_model(world, [{'snap': '/'}, C('put', opts + ['--', a], e, stdin=my_stdin, cwd='/v'), {'snap': '/'}])
-                if ra[1]['exc']:
-                    fail_alone = True
-                    out_alone = classify(ra[0], ra[2], p)
-                else:
-                    fail_alone = ra[1]['exit'] != 0
-                    out_alone = classify(ra[0], ra[2], p)
-                got = classify(before, after, p)
-                if got != out_alone:
+                alone = classify(ra[0], ra[2], p)
+                if alone != got and not first_of_dup:
                     return rt.fail('C16:outcome-depends-on-neighbours:%s' % AK[kind],
-                                   'argument %d (%r, %s) of %r: %s in the list, %s when run alone' % (pos, a, AK[kind], args, got, out_alone))
-            if fail_alone:
+                                   'argument %d (%r, %s) of %r: %s in the list, %s when run alone' % (pos, a, AK[kind], args, got, alone))
+            if want_fail:
                 any_failed = True
                 shown = a if a != '' else "''"
                 if a.encode('utf-8', 'surrogateescape').decode('utf-8', 'replace') not in r['err'] and shown not in r['err'] \
@@ -171,7 +189,7 @@ def _case(n, k0, k1, k2, k3, mode):
                     return rt.fail('C16:no-diagnostic-for-failed-argument:%s' % AK[kind],
                                    'argument %r (%s) failed, stderr does not name it: %r' % (a, AK[kind], r['err'][-400:]))
         if any_failed and r['exit'] == 0:
-            return rt.fail('C16:exit-0-despite-failure:' + label, 'args %r' % (args,))
+            return rt.fail('C16:exit-0-despite-failure:' + label, 'args %r under %r: some argument failed (stderr %r) but the exit status is 0' % (args, opts, r['err'][-200:]))
         if not any_failed and r['exit'] != 0:
             return rt.fail('C16:exit-nonzero-without-failure:' + label, 'args %r exit %r stderr %r' % (args, r['exit'], r['err'][-300:]))
         return rt.ok()
